@@ -117,11 +117,11 @@ def run(ctx):
         ctx.violation(R_E, key2 + "|cycle-not-reported", "the diagnostic for a same-tick cycle is not built from the cycle returned by the sorter", fsu.loc())
 
 
-def refdeps_rule(ctx, c, fsu):
+def refdeps_rule(ctx, c, fsu, rid="C19.refdeps"):
     """same-tick dependencies that stem from a handoff *reference* (producer before borrower, borrower before the handoff's consumers) and from access
     groups are inserted regardless of tick_edges: a delayed pipe edge does not delay a reference"""
     import guards
-    R = ctx.rule("C19.refdeps", "reference and access-group dependencies are inserted into the predecessor map unconditionally (never filtered by tick_edges)", floor=1)
+    R = ctx.rule(rid, "reference and access-group dependencies are inserted into the predecessor map unconditionally (never filtered by tick_edges)", floor=1)
     key = "dfir_lang|find_subgraph_unionfind"
     G = guards.Guards(fsu, {"contains_key"})
     refs = [bb for bb, t in fsu.calls() if t.get("f") and t["f"]["name"] == "node_handoff_references" and not fsu.is_cleanup(bb)]
